@@ -429,7 +429,7 @@ def sibling(ctx, R, pairs=(('Sort', 'BatchSort'), ('VisualSort', 'BatchVisualSor
                   'same constant arguments; (operation, constant args): (simple count, batch count) = %s. One of the '
                   'two pipelines was changed without its sibling' % {('%s%s' % (k[0].rsplit('::', 2)[-2] + '::' + k[0].rsplit('::', 1)[-1], list(k[1]))): v for k, v in diff.items()})
         # decision skeleton: set_track_id -> add_track on the new-track branches; merge on winner != source
-        for body, label in ((sb, s_name), (bv, b_name)):
+        for body, label in ((ctx.anchor(R, T.result_path(T.TRACKERS[s_name])) or sb, s_name), (bv, b_name)):
             eb = ExprBuilder(body)
             me = body.find_calls('track::store::TrackStore::merge_external')
             n += 1
